@@ -227,10 +227,20 @@ def fit_dtype_sites(prog, quals, rep, rule, witness_for):
             if cls == NONNEG:
                 rep.proved(rule, where, cons, "argument is a count / extent: never negative, no minimum needed")
             elif cls == CATEGORY:
-                ok = minarg is not None and minarg.op == "call" and tm.callee_name(minarg) in ("builtins.min", "numpy.min", "numpy.amin") and value_class(minarg, I) == CATEGORY
+                MINS, MAXS = ("builtins.min", "numpy.min", "numpy.amin"), ("builtins.max", "numpy.max", "numpy.amax")
+                ok = minarg is not None and minarg.op == "call" and tm.callee_name(minarg) in MINS and value_class(minarg, I) == CATEGORY
                 rep.check(ok, rule, where, cons, "minimum of the same values is passed",
                           "the argument is the maximum of category values that may be negative, but no minimum is passed: an unsigned dtype is chosen",
                           witness=witness_for(qual))
+                # the two arguments are the MAXIMUM and the MINIMUM of one and the same collection
+                if arg.op == "call" and tm.callee_name(arg) in MINS + MAXS and arg.args[1]:
+                    rep.check(tm.callee_name(arg) in MAXS, rule, where, cons + ": first argument is the maximum", "max(...)",
+                              "the first argument (maxval) is the MINIMUM of the values: the dtype is sized for the smallest value and the larger ones do not fit",
+                              witness={"inputs": "values 0 and 300: uint8 is chosen and storing 300 raises OverflowError"})
+                    if ok and minarg.args[1]:
+                        rep.check(minarg.args[1][0] == arg.args[1][0], rule, where, cons + ": maximum and minimum are taken over the same values", "",
+                                  "max(...) and min(...) range over different collections (%s / %s)" % (tm.show(arg.args[1][0])[:30], tm.show(minarg.args[1][0])[:30]),
+                                  witness={"inputs": "a value present in one collection only decides the other bound"})
             else:
                 rep.undecided(rule, where, cons, "cannot classify the argument as category value or extent")
     return n
